@@ -119,14 +119,28 @@ def _symbolic_for_inner(ex, node, it, st, ctx, lo, hi, elem, lo_t, hi_t, v, dry,
     if summary_ok:
         if log.len_changes:
             summary_ok, reason = False, "length of a sequence changes in the body"
+    offsets = {}      # cid -> loop-invariant offset c: the body writes A[v + c]  (c = 0: the plain map loop)
     if summary_ok:
         for cid, idx in log.writes:
-            if isinstance(idx, tuple) or not _prove(ex, end, ex.cmp("==", idx, v)):
+            if isinstance(idx, tuple):
                 summary_ok, reason = False, f"write to cell {cid} at an index other than the loop variable"
+                break
+            if _prove(ex, end, ex.cmp("==", idx, v)):
+                c_off = 0
+            else:
+                c_off = z3.simplify(to_int(idx) - v) if is_sym(idx) else None
+                if c_off is None or _mentions(c_off, v) or not _prove(ex, end, ex.cmp("==", idx, ex.arith("+", v, c_off))):
+                    summary_ok, reason = False, f"write to cell {cid} at an index other than the loop variable"
+                    break
+            prev = offsets.setdefault(cid, c_off)
+            same = (prev is c_off) or (not is_sym(prev) and not is_sym(c_off) and prev == c_off) or \
+                (is_sym(prev) and is_sym(c_off) and prev.eq(c_off))
+            if not same:
+                summary_ok, reason = False, f"writes to cell {cid} at two different offsets"
                 break
     if summary_ok:
         for cid, idx in log.reads:
-            if cid in written_cids and not _prove(ex, end, ex.cmp("==", idx, v)):
+            if cid in written_cids and not _prove(ex, end, ex.cmp("==", idx, ex.arith("+", v, offsets.get(cid, 0)))):
                 summary_ok, reason = False, "read of a written array at another index (loop-carried)"
                 break
     carried_vars = []
@@ -196,7 +210,8 @@ def _symbolic_for_inner(ex, node, it, st, ctx, lo, hi, elem, lo_t, hi_t, v, dry,
                 if summary_ok:
                     # written cells must not depend on the markers either
                     for cid in written_cids:
-                        val = pend.cells[cid].get(v)
+                        val = pend.cells[cid].get(v if (not is_sym(offsets.get(cid, 0)) and offsets.get(cid, 0) == 0)
+                                                  else to_int(ex.arith("+", v, offsets[cid])))
                         if is_sym(val) and any(_mentions(val, mk) for mk in markers.values()):
                             summary_ok, reason = False, "array element depends on a loop-carried scalar"
                             break
@@ -210,10 +225,11 @@ def _symbolic_for_inner(ex, node, it, st, ctx, lo, hi, elem, lo_t, hi_t, v, dry,
             old = st.cells[cid]
             new_v = end.cells[cid]
 
-            def fn(k, old=old, new_v=new_v):
+            def fn(k, old=old, new_v=new_v, c_off=offsets.get(cid, 0)):
                 kt = to_int(k)
-                inr = zand(ex.cmp("<=", lo, kt), ex.cmp("<", kt, hi))
-                body_val = _subst(new_v.get(kt), v, kt)
+                it_ = kt if (not is_sym(c_off) and c_off == 0) else to_int(ex.arith("-", kt, c_off))   # the iteration that writes k
+                inr = zand(ex.cmp("<=", lo, it_), ex.cmp("<", it_, hi))
+                body_val = _subst(new_v.get(kt), v, it_)
                 return ite(inr, body_val, old.get(kt))
             if old.items is not None:
                 st.cells[cid] = Seq(old.kind, old.n, items=[fn(k) for k in range(old.n)], et=old.et)
@@ -251,6 +267,7 @@ def _symbolic_for_inner(ex, node, it, st, ctx, lo, hi, elem, lo_t, hi_t, v, dry,
             else:
                 oldv = ex.heap_initial_for_merge(st, key)
             st.heap[key] = ite(nonempty, lastv, oldv)
+        _log_to_enclosing(st, log, written_cids, tvars)
         # obligations generated in the dry run (bounds, callee preconditions) hold for an arbitrary iteration: keep
         ctx.stats["map_loops_seen"] = ctx.stats.get("map_loops_seen", 0) + 1
         ctx.add_obligation(end, "canary", f"maploop{ctx.stats['map_loops_seen']}.body", z3.BoolVal(False),
@@ -315,6 +332,21 @@ def _symbolic_for_inner(ex, node, it, st, ctx, lo, hi, elem, lo_t, hi_t, v, dry,
         return invariant_for(ex, node, st, lo, hi, elem, log, written_cids, tvars, reason)
     finally:
         ctx.no_let = saved_no_let
+
+
+def _log_to_enclosing(st, log, written_cids, tvars):
+    """a summarised / invariant-treated loop runs inside the dry run of an ENCLOSING loop: what it writes must reach
+    that loop's write log (as whole-array writes), or the enclosing loop would neither havoc nor label these locations"""
+    outer = st.log
+    if outer is None:
+        return
+    for cid in written_cids:
+        outer.writes.append((cid, ("whole-array write by an inner loop",)))
+    outer.var_writes |= set(log.var_writes) | set(tvars)
+    outer.heap_writes |= set(log.heap_writes)
+    outer.len_changes |= set(log.len_changes)
+    if len(st.frames) == getattr(outer, "depth", len(st.frames)):
+        outer.write_texts.extend(t for t in log.write_texts if t not in outer.write_texts)
 
 
 def _mentions(term, sym) -> bool:
@@ -463,4 +495,5 @@ def invariant_for(ex, node, st, lo, hi, elem, log, written_cids, tvars, reason):
     results.append(Outcome("normal", exit_st))
     for b in breaks:
         results.append(Outcome("normal", b))
+    _log_to_enclosing(st, log, written_cids, tvars)
     return results
